@@ -344,7 +344,7 @@ func runC03(c *Ctx) {
 		maxIn = 4
 		c.Deadline = c.Start.Add(60 * time.Minute)
 	}
-	c.Rule = fmt.Sprintf("all bind tables of 1..2 bindings (thorough: + 3-binding chains) with sequences of length <= %d over a 4-key alphabet per keymap (a, b, ESC or glued ESC-a, C-x), each bound to a distinct logging probe command or (one-bind and two-bind tables) a macro with a body of <= 2 keys, ESC-x pairs also stored meta-encoded; installed by replacing the keymap (emacs, vi-insert, vi-command) with a fresh map; x all key strings of length <= %d, one key per read; invocation log (command, Keys.Caller(), wait index) compared with the reference longest-match tokenizer. non-trivial = distinct (table, input) pairs for which the model expects at least one invocation", maxSeq, maxIn)
+	c.Rule = fmt.Sprintf("all bind tables of 1..2 bindings (thorough: + 3-binding chains) with sequences of length <= %d over a 4-key alphabet per keymap (a, b, ESC or glued ESC-a, C-x), each bound to a distinct logging probe command or (one-bind and two-bind tables) a macro with a body of <= 2 keys, ESC-x pairs also stored meta-encoded; + nested-macro tables (a macro whose body runs another macro) over four plain keys; installed by replacing the keymap (emacs, vi-insert, vi-command) with a fresh map; x all key strings of length <= %d, one key per read; invocation log (command, Keys.Caller(), wait index) compared with the reference longest-match tokenizer. non-trivial = distinct (table, input) pairs for which the model expects at least one invocation", maxSeq, maxIn)
 	c.Assumptions = []string{"what becomes of keys consumed while a longer binding is being ruled out is not fixed by the statement: on inputs with such dead keys only soundness and the shorter-binding rule are judged", "in vi keymaps a lone ESC is not in the alphabet (timing-dependent by the statement); ESC-a is delivered glued", "local keymaps are covered by c03local (see evidence key local_keymaps)"}
 	type cse struct {
 		km    string
@@ -418,6 +418,28 @@ func runC03(c *Ctx) {
 				}
 			}
 		}
+		// nested macros (a macro whose body contains a key bound to another macro), over four plain keys:
+		// "behaves as if the macro's keys had been typed" holds for the inner macro too - its keys come
+		// where its key stood, before the rest of the outer body
+		var nestedTables []c03Table
+		for _, outer := range []string{"bc", "cb", "bcb"} {
+			for _, inner := range []string{"d", "dc", "cd"} {
+				nestedTables = append(nestedTables, c03Table{{Seq: "a", Cmd: outer, Macro: true}, {Seq: "b", Cmd: inner, Macro: true}, {Seq: "c", Cmd: "p1"}, {Seq: "d", Cmd: "p2"}})
+			}
+		}
+		nestedInputs := [][]string{}
+		for _, k1 := range []string{"a", "b", "c", "d"} {
+			nestedInputs = append(nestedInputs, []string{k1})
+			for _, k2 := range []string{"a", "b", "c", "d"} {
+				nestedInputs = append(nestedInputs, []string{k1, k2})
+			}
+		}
+		for _, t := range nestedTables {
+			for _, in := range nestedInputs {
+				cases = append(cases, cse{km, t, in})
+			}
+		}
+		ntables += len(nestedTables)
 		// a macro whose body contains a key of its own sequence can feed itself (directly or
 		// through the re-dispatch of a ruling-out key): a configuration error by construction,
 		// never terminating; such tables are not part of the space
